@@ -84,8 +84,8 @@ class ExcHandle:
 
 
 class PathResult:
-    def __init__(self, pc, kind, value, events, writes):
-        self.pc, self.kind, self.value, self.events, self.writes = pc, kind, value, events, writes
+    def __init__(self, pc, kind, value, events, writes, approx=()):
+        self.pc, self.kind, self.value, self.events, self.writes, self.approx = pc, kind, value, events, writes, list(approx)
 
     def __repr__(self):
         return f"<path {self.kind} {self.value!r} |pc|={len(self.pc)}>"
@@ -107,6 +107,7 @@ class Interp:
         self.pc, self.dec, self.pos, self.work = [], [], 0, []
         self.stack = []
         self.trace_calls = False
+        self.approx = []  # over-approximations used on the current path (uninterpreted string functions, opaque results)
         from .models import install_all
 
         install_all(self)
@@ -120,12 +121,12 @@ class Interp:
                 raise Unsupported("path budget exhausted")
             prefix = work.pop()
             self.pc, self.dec, self.pos, self.work = [], list(prefix), 0, work
-            self.events, self.writes, self.allocs, self.depth, self.stack = [], [], [], 0, []
+            self.events, self.writes, self.allocs, self.depth, self.stack, self.approx = [], [], [], 0, [], []
             try:
                 v = thunk()
-                results.append(PathResult(list(self.pc), "return", v, list(self.events), list(self.writes)))
+                results.append(PathResult(list(self.pc), "return", v, list(self.events), list(self.writes), self.approx))
             except PyRaise as e:
-                results.append(PathResult(list(self.pc), "raise", e.exc, list(self.events), list(self.writes)))
+                results.append(PathResult(list(self.pc), "raise", e.exc, list(self.events), list(self.writes), self.approx))
             except PathEnd:
                 continue
         return results
@@ -160,6 +161,30 @@ class Interp:
 
     def assume(self, cond):
         self.pc.append(cond)
+
+    def split_values(self, term, limit=64):
+        """Case split on a symbolic string/int whose path condition leaves finitely many (<= limit) values.
+        Returns the concrete value on this path (forking one path per value), or None when the domain is not finite."""
+        vals, blocks = [], []
+        while len(vals) <= limit:
+            r, m, _ = solver.check(self.pc + blocks, timeout_ms=3000, want_model=True)
+            if r == "unsat":
+                break
+            if r != "sat":
+                return None
+            v = m.eval(term, model_completion=True)
+            vals.append(v)
+            blocks.append(term != v)
+        else:
+            return None
+        if len(vals) > limit or not vals:
+            return None
+        for v in vals[:-1]:
+            if self.branch(term == v):
+                return v.as_string() if z3.is_string_value(v) else v.as_long()
+        self.pc.append(term == vals[-1])
+        v = vals[-1]
+        return v.as_string() if z3.is_string_value(v) else v.as_long()
 
     def require(self, cond, exc):
         """Builtin precondition: the path on which it fails raises ``exc`` (a native exception instance)."""
@@ -1163,9 +1188,10 @@ class Interp:
             if isinstance(v, PFunc) and v.owner is None:
                 v.owner = c
             c.d[k] = v
+        v = c
         for d in reversed(s.decorator_list):
-            raise Unsupported("class decorator")
-        return c
+            v = self.call(self.eval(d, env, mod), [v], {})
+        return v
 
     def assign(self, t, v, env, mod):
         if isinstance(t, ast.Name):
@@ -1211,7 +1237,12 @@ class Interp:
             if o.has_base:
                 return self.setitem(o.base, k, v)
         if isinstance(o, (dict, collections.ChainMap)) and not self.concrete(k):
-            raise Unsupported("symbolic key into a concrete dict")
+            zk = self.zstr(k)
+            if zk is None or not all(isinstance(x, str) or x is k for x in o.keys()):
+                raise Unsupported("symbolic key into a concrete dict")
+            for x in o.keys():  # the symbolic key must be provably different from every key already present
+                if x is not k and solver.check(self.pc + [zk == z3.StringVal(x)], timeout_ms=3000)[0] != "unsat":
+                    raise Unsupported("symbolic dict key that may coincide with an existing key")
         try:
             o[k] = v
         except Exception as e:
